@@ -35,6 +35,10 @@ class Emit:
         ifs = extract.find_nodes(self.u.fn["body"], lambda n: n.get("k") == "if" and n["c"].get("k") == "path" and n["c"]["segs"] == ["should_construct_face"])
         if len(ifs) != 1: raise extract.Undecided("lost anchor: `if should_construct_face {..}`")
         self.consts = self.u.auto_consts(XF)
+        # statements of the function body in front of the one that holds the predicate (cell-level lets the predicate may read)
+        top = [s_ for s_ in self.u.fn["body"]["stmts"] if s_["sp"][0] <= let_sc["sp"][0] < s_["sp"][1]]
+        if len(top) != 1: raise extract.Undecided("lost anchor: statement holding should_construct_face")
+        self.prefix = [s_ for s_ in self.u.fn["body"]["stmts"] if s_["sp"][1] <= top[0]["sp"][0]]
 
     def __call__(self, left, right_opt, shift_some, normal, dim, mask_opt, tag):
         hs = Struct("HalfSpace", {"plane": Struct("Plane", {"n": normal, "p": vec(tag + "_p")}), "d": real(tag + "_d"), "errb": real(tag + "_e"),
@@ -43,11 +47,21 @@ class Emit:
         planes = SymArr(lambda i: hs)
         cell = Struct("ConvexCell", {"idx": left, "dimensionality": dim, "clipping_planes": planes})
         ctx = symex.Ctx(); ctx.resolver = self.u.resolver(XF)
-        v, env, ctx, it = symex.run_stmts(self.stmts, {"convex_cell": cell, "clipping_plane_idx": k, "idx": left, "mask": mask_opt},
-                                          ctx, self.consts, "VoronoiCell")
+        # cell-level prefix in tolerant mode (anything outside the subset is havoc'd), then the two lets of the predicate
+        it = symex.Interp(ctx, self.consts); it.tolerant = True
+        it.note_params(self.u.fn)
+        env = symex.Env(ctx, {"convex_cell": cell, "faces": symex.Havoc(ctx, "faces"), "mask": mask_opt}, TRUE, "VoronoiCell")
+        if self.prefix:
+            it.exec_block(env, {"k": "block", "stmts": self.prefix, "sp": [self.prefix[0]["sp"][0], self.prefix[-1]["sp"][1]]})
+        env.vars["clipping_plane_idx"] = k
+        env.vars.setdefault("idx", left)
+        it.tolerant = False
+        it.exec_block(env, {"k": "block", "stmts": self.stmts, "sp": [self.stmts[0]["sp"][0], self.stmts[-1]["sp"][1]]})
         r = env.vars["should_construct_face"]
+        if isinstance(r, symex.Havoc): r = r.coerce("Bool")
         if not (isinstance(r, tm.T) and r.sort == "Bool"): raise extract.Undecided("should_construct_face is not boolean")
         if ctx.panics: pass  # mask[..] index panics: allowed (mask shorter than generators is a caller error)
+        ctx.emit_havoc = has_havoc([r])
         return r, ctx
 
 
@@ -119,8 +133,10 @@ def emit_obligations(prefix, want=("reciprocal", "partial", "sym")):
     none = Opt(FALSE, None)
     eij, c1 = E(i, some(j), FALSE, n, dim, mask, "ij")
     eji, c2 = E(j, some(i), FALSE, negn, dim, mask, "ji")
-    mi, mj = marr.memo.get(i), marr.memo.get(j)
-    if mi is None or mj is None: raise extract.Undecided("should_construct_face no longer reads mask[right_idx]")
+    # mask[i], mask[j]: the bits the property talks about (created here if the predicate did not read them - then it cannot depend on them)
+    for t_ in (i, j):
+        if t_ not in marr.memo: marr.memo[t_] = marr.factory(t_)
+    mi, mj = marr.memo[i], marr.memo[j]
     valid = valid_dim(dim, n)
     A = base + c1.assume + c2.assume
     sel = lambda m: Or(Not(mask.some), m)     # cell is constructed: no mask or mask bit set
@@ -143,8 +159,8 @@ def emit_obligations(prefix, want=("reciprocal", "partial", "sym")):
     if "sym" in want:
         active, aarr = sym_mask("active")
         sk, c5 = S(i, some(j), FALSE, aarr, "sk")
-        aj = aarr.memo.get(j)
-        if aj is None: raise extract.Undecided("the sym guard no longer reads mask[right_idx]")
+        if j not in aarr.memo: aarr.memo[j] = aarr.factory(j)
+        aj = aarr.memo[j]
         obs.append(Obligation(prefix + ".sym.skip_iff_unshifted_lower_index_active_neighbour", base + c5.assume, Eq(sk, And(Lt(j, i), aj)), S.u.label))
         sks, c6 = S(i, some(j), TRUE, aarr, "sks")
         skb, c7 = S(i, none, FALSE, aarr, "skb")
@@ -155,7 +171,10 @@ def emit_obligations(prefix, want=("reciprocal", "partial", "sym")):
                               Eq(And(valid, Not(sk)), e_act), S.u.label,
                               note="symmetric integral list <-> Voronoi::faces of the same (active) cell, plane by plane"))
         obs.append(S.structural_obligation(prefix))
-    fns = [{"fn": E.u.label + " / let half_space; let should_construct_face", "slice_sha": E.sha}]
+    hv = any(getattr(c_, "emit_havoc", False) for c_ in (c1, c2))
+    for o in obs:
+        if ".emit." in o.name or "kept_faces" in o.name: o.havoc = hv
+    fns = [{"fn": E.u.label + " / cell-level prefix; let half_space; let should_construct_face", "slice_sha": E.sha}]
     if S: fns.append({"fn": S.u.label + " / match arm `=> continue`", "slice_sha": S.sha})
     return obs, fns
 
@@ -236,8 +255,55 @@ def replay_pair(ob):
         bad = len(faces) != want or any((f["left"] == i and not sel_i) or (f["left"] == j and not sel_j) for f in faces)
         if sel_i and sel_j and faces and faces[0]["left"] != min(i, j): bad = True
         out.append({"request": req, "faces_between_i_j": faces, "expected_count": want, "violates": bad})
+    if not any(o["violates"] for o in out):
+        srch = replay_mask_search()
+        if srch["reproduced"]: return srch
     return {"i": i, "j": j, "runs": out, "reproduced": any(o["violates"] for o in out),
             "what": "stored faces between cells i and j (no shift) vs 'exactly once, selected/lower-index cell on the left'"}
+
+
+def replay_mask_search():
+    """Every mask over small 1D / 2D generator sets (reflective and periodic), through the public API, against the unmasked build of the same
+    set: a pair of cells that shares an unshifted face in the full build must share exactly one stored face iff some side is selected, with a
+    selected cell on the left (the lower index when both are selected); a shifted face is stored once per selected left cell."""
+    import itertools
+    from ..runner import replay_requests
+    sets = [(1, [[0.1, 0, 0], [0.3, 0, 0], [0.6, 0, 0], [0.9, 0, 0]]),
+            (2, [[0.2, 0.2, 0], [0.7, 0.3, 0], [0.4, 0.8, 0], [0.8, 0.75, 0], [0.5, 0.5, 0]])]
+    key = lambda f: (f["left"], f["right"], None if f["shift"] is None else tuple(round(x, 9) for x in f["shift"]))
+    n_runs = 0
+    for dim, gens in sets:
+        for periodic in (False, True):
+            base = {"op": "build", "gens": gens, "anchor": [0, 0, 0], "width": [1, 1, 1], "dim": dim, "periodic": periodic}
+            masks = [list(m) for m in itertools.product([True, False], repeat=len(gens))]
+            ans = replay_requests([base] + [dict(base, mask=m) for m in masks], timeout=600)
+            full, rest = ans[0], ans[1:]
+            if "faces" not in full: continue
+            # adjacency of the full tessellation, as unordered pairs (unshifted) and as directed (left, right, shift) for periodic faces
+            pairs = {frozenset((f["left"], f["right"])) for f in full["faces"] if f["right"] is not None and f["shift"] is None}
+            shifted = set()
+            for f in full["faces"]:
+                if f["shift"] is not None: shifted.add(key(f))
+            for m, a in zip(masks, rest):
+                n_runs += 1
+                if "faces" not in a: return {"reproduced": True, "request": dict(base, mask=m), "real": a, "what": "masked build fails"}
+                fs = a["faces"]
+                for pr in pairs:
+                    i, j = sorted(pr)
+                    got = [f for f in fs if f["shift"] is None and f["right"] is not None and {f["left"], f["right"]} == {i, j}]
+                    want = 1 if (m[i] or m[j]) else 0
+                    wrong_left = any(not m[f["left"]] for f in got) or (m[i] and m[j] and got and got[0]["left"] != i)
+                    if len(got) != want or wrong_left:
+                        return {"reproduced": True, "request": dict(base, mask=m), "pair": [i, j], "stored_faces_between_them": got, "expected_count": want,
+                                "what": "face between cells %d and %d under mask %r: stored %d times (property: %d, selected / lower-index cell on the left)" % (i, j, m, len(got), want)}
+                for (l, r, sh) in shifted:
+                    got = [f for f in fs if key(f) == (l, r, sh)]
+                    if len(got) != (1 if m[l] else 0):
+                        return {"reproduced": True, "request": dict(base, mask=m), "periodic_face": [l, r, list(sh)], "stored": len(got),
+                                "what": "periodic face (left %d, right %d) under mask %r stored %d times, property: once iff the left cell is selected" % (l, r, m, len(got))}
+                if any(not m[f["left"]] for f in fs):
+                    return {"reproduced": True, "request": dict(base, mask=m), "what": "a face has an unselected left cell"}
+    return {"reproduced": False, "searched": n_runs, "what": "all masks over a 4-generator 1D and a 5-generator 2D set, reflective and periodic"}
 
 
 def shift_mapping_obligations(prefix):
